@@ -42,6 +42,7 @@ type DnsPath struct {
 	MaxAns    int                                    // >0: answers whose packed size exceeds this are dropped
 	Truncate  bool                                   // with MaxAns: oversize answers come back empty with the TC bit instead of being dropped
 	QueryWire func(exchange int, wire []byte) []byte // rewrite the packed query (nil result = dropped)
+	From      func(exchange int) net.Addr            // non-nil result: the server sees this exchange as coming from that address
 }
 
 const DnsDomain = "t.example.org"
@@ -202,7 +203,13 @@ func (d *DgramConn) serve(exch int, packed []byte) []byte {
 			}
 		}()
 		if d.srv.on != nil {
-			resp, err = d.srv.on(q, d.local)
+			from := net.Addr(d.local)
+			if d.path != nil && d.path.From != nil {
+				if a := d.path.From(exch); a != nil {
+					from = a
+				}
+			}
+			resp, err = d.srv.on(q, from)
 		}
 	}()
 	if err != nil || resp == nil {
